@@ -79,6 +79,7 @@ type ownedRun struct {
 	scenario string
 	mode     string
 	prefix   string
+	prefixes []string // every path prefix of the CONFIGURED ingresses (nil: just prefix)
 	host     string
 	rt       chi.Router
 	sso      *inprocRT
@@ -151,7 +152,11 @@ func (o *ownedRun) do(state, method, target string, hdr map[string]string, cooki
 		o.w.Write(j)
 		o.w.WriteByte('\n')
 	}
-	out := ownedRec{Scenario: o.scenario, Mode: o.mode, Prefixes: []string{o.prefix}, State: state, Method: method, Target: target,
+	pfx := o.prefixes
+	if pfx == nil {
+		pfx = []string{o.prefix}
+	}
+	out := ownedRec{Scenario: o.scenario, Mode: o.mode, Prefixes: pfx, State: state, Method: method, Target: target,
 		Path: r.URL.Path, RawPath: r.URL.RawPath, ReqHeaders: rh, Status: rec.Code, Headers: rec.Header(), Body: hx(body),
 		UpstreamHit: up1 > up0, SSOHit: o.sso != nil && o.sso.hits > sso0}
 	j, _ := json.Marshal(out)
@@ -236,6 +241,18 @@ func (o *ownedRun) sweep(state string, sess string, destructive bool) {
 		o.do(state, "GET", base+p, navHdr, ck(nil))
 		o.do(state, "POST", base+p, nil, ck(nil))
 	}
+	// other ways of writing the request line for an owned path (chi routes on the path): absolute-form naming this host or a
+	// foreign one, scheme without / with empty authority; with and without exhausted retries (error page / retry redirect)
+	for _, p := range []string{"/oauth2/session", "/oauth2/login", "/oauth2/login?redirect=/x", "/oauth2/logout", "/oauth2/callback?code=bad&state=bad",
+		"/oauth2/logout/callback", "/oauth2/logout/frontchannel", "/oauth2/session/refresh", "/oauth2/x"} {
+		for _, pre := range []string{"http://" + o.host, "http://evil.example", "https://evil.example:8443", "http:", "http://"} {
+			for _, hd := range []map[string]string{navHdr, xhrHdr} {
+				o.do(state+"+absolute-form", "GET", pre+base+p, hd, ck(nil))
+			}
+			o.do(state+"+absolute-form+retries-exhausted", "GET", pre+base+p, navHdr, ck(terminal))
+			o.do(state+"+absolute-form", "POST", pre+base+p, nil, ck(terminal))
+		}
+	}
 	// not owned: goes to the upstream
 	o.do(state, "GET", base+"/some/page", navHdr, ck(nil))
 	o.do(state, "GET", base+"/oauth2x", navHdr, ck(nil))
@@ -317,15 +334,21 @@ func runOwned(args []string) error {
 		prefix string
 		mode   string
 		legacy bool
+		// all configured path prefixes when there are several ingresses (trailing slashes dropped; letter case matters)
+		prefixes []string
 	}
 	scens := []scen{
-		{"standalone", stackOpts{fwdAuth: true, maxLifetime: 10 * time.Hour, useSecret: true}, "", "standalone", false},
+		{"standalone", stackOpts{fwdAuth: true, maxLifetime: 10 * time.Hour, useSecret: true}, "", "standalone", false, nil},
 		{"standalone-prefix-idtoken", stackOpts{fwdAuth: true, maxLifetime: 10 * time.Hour, useSecret: true, includeIDTok: true,
-			ingresses: []string{"http://wonderwall/app"}}, "/app", "standalone", false},
-		{"standalone-redis-inactivity", stackOpts{redis: true, fwdAuth: false, maxLifetime: 10 * time.Hour, inactivity: 2 * time.Hour, useSecret: true, par: true}, "", "standalone", false},
-		{"sso-server", stackOpts{sso: true, fwdAuth: true, maxLifetime: 10 * time.Hour, useSecret: true}, "", "sso-server", false},
-		{"standalone-ratelimit", stackOpts{maxLifetime: 10 * time.Hour, useSecret: true, rateLimit: &config.RateLimit{Enabled: true, Logins: 3, Window: time.Minute}}, "", "standalone", false},
-		{"standalone-legacy-cookie", stackOpts{maxLifetime: 10 * time.Hour, useSecret: true, legacyCookie: true}, "", "standalone", true},
+			ingresses: []string{"http://wonderwall/app"}}, "/app", "standalone", false, nil},
+		{"standalone-redis-inactivity", stackOpts{redis: true, fwdAuth: false, maxLifetime: 10 * time.Hour, inactivity: 2 * time.Hour, useSecret: true, par: true}, "", "standalone", false, nil},
+		{"sso-server", stackOpts{sso: true, fwdAuth: true, maxLifetime: 10 * time.Hour, useSecret: true}, "", "sso-server", false, nil},
+		{"standalone-ratelimit", stackOpts{maxLifetime: 10 * time.Hour, useSecret: true, rateLimit: &config.RateLimit{Enabled: true, Logins: 3, Window: time.Minute}}, "", "standalone", false, nil},
+		{"standalone-legacy-cookie", stackOpts{maxLifetime: 10 * time.Hour, useSecret: true, legacyCookie: true}, "", "standalone", true, nil},
+		// ingresses whose paths differ only in letter case, a host spelt in another case, a duplicate with trailing slash, nested
+		{"standalone-case-variant-prefixes", stackOpts{fwdAuth: true, maxLifetime: 10 * time.Hour, useSecret: true,
+			ingresses: []string{"http://wonderwall/Soknad", "http://wonderwall/soknad", "http://WonderWall/soknad/", "http://wonderwall/soknad/Sub", "http://wonderwall/SOKNAD/"}},
+			"/Soknad", "standalone", false, []string{"/Soknad", "/soknad", "/soknad/Sub", "/SOKNAD"}},
 	}
 	total := 0
 	var runErr error
@@ -337,7 +360,7 @@ func runOwned(args []string) error {
 				runErr = err
 				return
 			}
-			o := &ownedRun{s: s, scenario: sc.name, mode: sc.mode, prefix: sc.prefix, host: "wonderwall", rt: s.mainRt, w: w}
+			o := &ownedRun{s: s, scenario: sc.name, mode: sc.mode, prefix: sc.prefix, prefixes: sc.prefixes, host: "wonderwall", rt: s.mainRt, w: w}
 			if err := o.scenarioBody(sc.legacy); err != nil {
 				runErr = fmt.Errorf("%s: %w", sc.name, err)
 			}
@@ -345,6 +368,28 @@ func runOwned(args []string) error {
 				runErr = o.err
 			}
 			total += o.n
+			// several configured ingresses: the same sweeps (no session / valid session obtained under that prefix) under
+			// every OTHER configured path prefix
+			for _, q := range sc.prefixes {
+				if q == sc.prefix || runErr != nil {
+					continue
+				}
+				o2 := &ownedRun{s: s, scenario: sc.name, mode: sc.mode, prefix: q, prefixes: sc.prefixes, host: "wonderwall", rt: s.mainRt, w: w, ntok: o.ntok}
+				o2.sweep("no-session", "", false)
+				sess, err := o2.login("sid-p" + q)
+				if err != nil {
+					// the login itself is an owned endpoint: what it answered is recorded; go on with a session from the first prefix
+					if sess, err = o.login("sid-q" + q); err != nil {
+						runErr = fmt.Errorf("%s: %w", sc.name, err)
+						break
+					}
+				}
+				o2.sweep("valid-session", sess, true)
+				if o2.err != nil && runErr == nil {
+					runErr = o2.err
+				}
+				total += o2.n
+			}
 			if sc.opts.sso && runErr == nil {
 				// the SSO proxy in front of the same store; its calls to the SSO server are served in process
 				sess, err := o.login("sid-9")
